@@ -1,1 +1,3 @@
 import Props.C11
+import Props.C02
+import Props.C03
